@@ -41,6 +41,12 @@ CLAIMED = {
  "C20": ("other", "SSA value identity (same slice digested and written) + dominance order + def-chain rules for the header derivation + in-place-filter discipline",
    "Decides on all paths of GetInbox/GetOutbox/handler that the bytes written are the very slice passed to addResponseHeaders, built as json.Marshal(streams.Serialize(x)) from the value the application supplied, after dedupe (inbox only) / recursive scrub (handler), with headers ≺ status ≺ body; that addResponseHeaders derives Content-Type, Date (clock.Now().UTC().Format(RFC 7231)+GMT) and Digest (SHA-256= base64.Std(sha256.Sum256(param))) through exactly those callees; that dedupeOrderedItems removes exactly later occurrences and examines every element; missing value ⇒ ErrNotFound with nothing written.",
    "Serialisation fidelity itself is C01's. Trusted: go/types, go/ssa, checker engines E1/E2/E4.", "DESIGN.md §4 C20"),
+ "C17": ("other", "SSA must-facts gates + value flow (filter result is the only index source) + depth guard + skip-on-failure loop shape + no-mutator rule",
+   "The value-level 'iff' is not decided. Decided on all paths: forwarding only where Exists==(false,nil), an owned collection was found, hasInboxForwardingValues==(true,nil) and FilterForwarding succeeded; the activity is recorded exactly where unseen and a seen one has no further effect; exactly to/cc/audience are scanned, kept only where owned, treated as collections only where the loaded value is one; inReplyTo/tag/object/target are each read on every path; the ownership search is depth-guarded, passes depth+1, reports true only from Owns/recursion true and skips unfetchable values while continuing; members come only from collections indexed by FilterForwarding's result; nothing on the path mutates an ActivityStreams value and the payload is Serialize(activity).",
+   "Value flow over-approximates. Trusted: go/types, go/ssa, checker engines E1/E2/E4/E9.", "DESIGN.md §4 C17"),
+ "C19": ("other", "SSA dominance and value-identity rules (headers ≺ sign ≺ send on one request value, signed bytes = sent bytes) + mutex typestate (E3 on sync.Mutex) + goroutine capture/write scan",
+   "Cryptographic validity and races inside application code are not decided. Decided on all paths: required headers with the documented values dominate SignRequest; SignRequest receives key, key id, that request and exactly the body slice that feeds the request (nil for GET); no use of the request between signing and Do(req); each signer only under its own mutex, released on all paths; body read only for 200, Deliver nil only where isSuccess={200,201,202}; BatchDeliver: total loop, Add before go, deferred Done, channel capacity len(recipients), Wait before a non-blocking drain, error iff a failure was received and naming each; goroutines write no captured state, value receivers, no field stores.",
+   "httpsig and net/http are trusted to do what they document. Trusted: go/types, go/ssa, go/cfg, checker engines E2/E3/E4.", "DESIGN.md §4 C19"),
 }
 NOT_YET = {}
 ALL = ["C%02d" % i for i in range(1, 21)]
